@@ -8,6 +8,7 @@ import (
 )
 
 //zzv:bound X1 = lockset obligation on the sequential analysis code of one fan (real RunInitializationSequence: PWM-map sweep 255..0 and RPM-curve measurement over all distinct values, hwmon fan that reads back what is written, with and without an RPM sensor, constant RPM reading; started with the mutex free or held by another fan's analysis that ends later): with runFanInitializationInParallel = false every PWM write of the analysis happens while InitializationSequenceMutex is held and the mutex is not released between the first and the last analysis write; by the semantics of a mutex the analysis intervals of any number of fans are then disjoint under every schedule
+//zzv:bound X3 = the same obligation on the analysis as the daemon starts it: real (*DefaultFanController).Run start-up of a hwmon or file fan with nothing stored, or with RPM-curve data stored but no PWM map, option false: apart from the few writes of the final restore every PWM write of the start-up happens while the mutex is held
 //zzv:bound X2 = with the option true the analysis completes without touching the mutex (analyses may overlap)
 //zzv:outside exclusion achieved by anything other than InitializationSequenceMutex (the check would then be inconclusive, not a violation); fairness and start order of the per-fan goroutines
 //zzv:stub sync.Mutex.Lock/Unlock drive a ghost 'held' flag; time.Sleep is a no-op
@@ -76,4 +77,28 @@ func ZZ_C16_X2_ParallelOptionTakesNoLock() {
 		none = none && !h
 	}
 	zzv.Assert(none, "X2.no_lock_with_parallel_initialisation")
+}
+
+// X3: the analysis as the daemon starts it. Run() decides per fan what still has to be measured
+// (RPM-curve data and PWM map are stored separately, so a fan can have one without the other) and
+// every sweep it starts from there must be under the mutex as well. Run switches on the concrete
+// fan type, so the writes are classified by the device-file model instead of a wrapper.
+func ZZ_C16_X3_StartupAnalysisHoldsTheLock() {
+	configuration.CurrentConfig.RunFanInitializationInParallel = false
+	configuration.CurrentConfig.FanResponseDelay = 0
+	kind := zzv.Choice("fanKind", 2) // hwmon / file
+	e, mem := zzStartEnv(kind, false)
+	if zzv.Choice("curveDataStored", 2) == 1 {
+		// analysed by an earlier run whose PWM map was not stored (older version, failed save, deleted bucket)
+		mem.rpm["zzfan"] = map[int]float64{0: 0, 255: 3000}
+	}
+	zzv.WatchWrites(e.pwmPath, &InitializationSequenceMutex)
+	err := zzStart(e, mem)
+	zzv.Record("pwmWrites", zzv.FileWrites(e.pwmPath))
+	zzv.Record("unlockedWrites", zzv.UnlockedWrites(e.pwmPath))
+	zzv.Assert(err == nil, "X3.start_succeeds")
+	zzv.Assert(zzv.FileWrites(e.pwmPath) > 200, "X3.fan_is_analysed")
+	// the writes of the final restore (not part of any analysis) happen without the mutex
+	zzv.Assert(zzv.UnlockedWrites(e.pwmPath) <= zzFewWrites, "X3.start_up_analysis_writes_hold_the_lock")
+	zzv.Assert(!zzv.MutexHeld(&InitializationSequenceMutex), "X3.lock_released_afterwards")
 }
